@@ -39,7 +39,7 @@ REQUIRED = ['quota_textbook_hare', 'quota_textbook_hagenbach_bischoff', 'quota_t
             'qd_cap', 'lr_cap', 'lr_cap_total', 'qd_cap_subtract',
             'prefix_qd_cap_witness', 'prefix_qd_cap_negative_witness', 'prefix_lr_cap_witness',
             'prefix_qd_house_witness', 'prefix_qd_policy_error_unnamed_witness']
-NAME_MODES = ['str', 'int0', 'empty0', 'person']
+NAME_MODES = ['str', 'int0', 'empty0', 'person', 'tuple']
 REQUIRED_COUNTERS = ['policy_error', 'policy_ignore', 'policy_subtract', 'subtract_tie', 'cap_binds', 'cap_with_prev',
                      'cap_remainder_only', 'remainder_tie', 'accept_equal_edge', 'overaward_imperiali',
                      'overaward_hagenbach_bischoff', 'whole_exceeds_house', 'prev_nonzero', 'prev_other_party',
